@@ -117,6 +117,12 @@ def generate(seed, tier):
     o = {'conf': {'profile': r.choice(['fast', 'fast', 'mid']), 'entries': 3, 'slow_dh': slow, 'mixed_family': 0.1}, 'both_initiate': r.random() < 0.3,
          'packets': r.randint(2, 6), 'duration': r.choice([30, 60, 100]), 'forced': 3, 'forced_kinds': ['expire_soft', 'jump_rekey'],
          'faults': ([k for k in ('drop', 'dup', 'reorder') if r.random() < 0.5] or ['drop']) if lossy else []}
+    if r.random() < 0.15:
+        # PFS everywhere with MODP groups only, preference lists that differ (INVALID_KE_PAYLOAD retries) and a short IKE lifetime on both
+        # ends (IKE_SA rekeys colliding with CHILD_SA exchanges, answered TEMPORARY_FAILURE): retry paths with history behind them
+        o['conf'].update(pfs=True, modp_only=True, single=False, ike_lifetime=r.choice([8, 12, 20]), slow_dh=False)
+        o['both_initiate'] = True
+        o['forced'] = 5
     sc = workload.pair_scenario(seed, PROP, o)
     sc['meta']['batch'] = 'lossy' if lossy else 'lossless'
     if r.random() < 0.2:
